@@ -398,6 +398,7 @@ def history_hash(l):
 
 def write_replay(rundir_keep, prop, name, payload):
     os.makedirs(rundir_keep, exist_ok=True)
+    name = re.sub(r"[^A-Za-z0-9_.+=,@-]+", "_", name)[:180]  # classification keys may contain '/', blanks, ...
     p = os.path.join(rundir_keep, "%s-%s.json" % (prop, name))
     with open(p, "w") as f:
         f.write(json.dumps(payload) + "\n")
